@@ -172,3 +172,146 @@ Proof.
     injection Hs as <-. ssimp. simpl. lia.
   - destruct (mgr st) eqn:Hm; try discriminate. injection Hs as <-. ssimp. simpl. lia.
 Qed.
+
+(* ---- admissible runs: bounded, and maximal ones end with every script done ---- *)
+
+Inductive aruns : state -> list label -> state -> Prop :=
+| ar_nil st : aruns st [] st
+| ar_cons st l st1 ls st2 :
+    step st l = Some st1 -> adm st l -> aruns st1 ls st2 -> aruns st (l :: ls) st2.
+
+Lemma aruns_app st ls1 st1 ls2 st2 :
+  aruns st ls1 st1 -> aruns st1 ls2 st2 -> aruns st (ls1 ++ ls2) st2.
+Proof. induction 1; simpl; intro H'; [assumption|]. econstructor; eauto. Qed.
+
+Lemma aruns_inv st ls st' : aruns st ls st' -> Inv st -> Inv st'.
+Proof. induction 1; intro HI; [assumption|]. apply IHaruns. eapply inv_step; eauto. Qed.
+
+Lemma aruns_reach s0 st ls st' : reach s0 st -> aruns st ls st' -> reach s0 st'.
+Proof. intros R H; revert R. induction H; intro R; [assumption|]. apply IHaruns. econstructor; eauto. Qed.
+
+Theorem aruns_bounded st ls st' : aruns st ls st' -> length ls + measure st' <= measure st.
+Proof.
+  induction 1; simpl; [lia|]. pose proof (measure_decreases _ _ _ H). lia.
+Qed.
+
+(* a run that cannot be extended by any admissible step has finished every
+   script: every Lock returned and was unlocked, no waiter was forgotten *)
+Theorem maximal_run_finished st ls st' :
+  Inv st -> aruns st ls st' ->
+  (forall l st'', step st' l = Some st'' -> ~ adm st' l) ->
+  finished st' = true.
+Proof.
+  intros HI R Hmax. destruct (finished st') eqn:Hf; [reflexivity|exfalso].
+  destruct (no_deadlock st' (aruns_inv _ _ _ R HI) Hf) as [l [st'' [H1 H2]]].
+  exact (Hmax _ _ H1 H2).
+Qed.
+
+(* and such a run exists from every state satisfying the invariant *)
+Theorem completes st : Inv st -> exists ls st', aruns st ls st' /\ finished st' = true.
+Proof.
+  remember (measure st) as n eqn:Hn. revert st Hn.
+  induction n as [n IH] using lt_wf_ind. intros st Hn HI.
+  destruct (finished st) eqn:Hf.
+  - exists [], st. split; [constructor|assumption].
+  - destruct (no_deadlock st HI Hf) as [l [st1 [H1 H2]]].
+    pose proof (measure_decreases _ _ _ H1) as Hlt.
+    destruct (IH (measure st1) ltac:(lia) st1 eq_refl (inv_step _ _ _ H1 H2 HI)) as [ls [st' [R F]]].
+    exists (l :: ls), st'. split; [econstructor; eauto|assumption].
+Qed.
+
+(* ---- exactly one waiter is admitted per release ---- *)
+
+(* traces that remember the state each label was taken in *)
+Inductive atrace : state -> list (state * label) -> state -> Prop :=
+| at_nil st : atrace st [] st
+| at_cons st l st1 tr st2 :
+    step st l = Some st1 -> adm st l -> atrace st1 tr st2 -> atrace st ((st, l) :: tr) st2.
+
+Definition wait_key (st : state) (g : nat) : option nat :=
+  match nth_error (gs st) g with Some (mkG (GWait _ k) _) => Some k | _ => None end.
+Definition rel_key (st : state) (g : nat) : option nat :=
+  match nth_error (gs st) g with Some (mkG (GSendRel k) _) => Some k | _ => None end.
+
+(* the event "Lock(k) returns in goroutine g" / "the holder's Unlock(k) is taken" *)
+Definition is_grant (k : nat) (e : state * label) : bool :=
+  match snd e with
+  | LGrant g => match wait_key (fst e) g with Some k' => Nat.eqb k' k | None => false end
+  | _ => false
+  end.
+Definition is_release (k : nat) (e : state * label) : bool :=
+  match snd e with
+  | LRelease g => match rel_key (fst e) g with Some k' => Nat.eqb k' k | None => false end
+  | _ => false
+  end.
+
+Lemma cH_get_item k0 ov st st1 e k : get_item k0 ov st = (st1, e) -> cH st1 k = cH st k.
+Proof. intro H. destruct (get_item_measure _ _ _ _ _ H) as (G & _). unfold cH. rewrite G. reflexivity. Qed.
+
+Lemma holders_step st l st1 k :
+  step st l = Some st1 ->
+  cH st1 k + b2n (is_release k (st, l)) = cH st k + b2n (is_grant k (st, l)).
+Proof.
+  unfold is_release, is_grant, wait_key, rel_key. destruct l; cbn [step snd fst]; intro Hs.
+  - destruct (nth_error (gs st) g) as [[c scr]|] eqn:Hg; try discriminate.
+    destruct c; try discriminate. destruct scr as [|[k0|k0] r]; try discriminate; injection Hs as <-;
+      match goal with |- context[set_g _ _ ?y] => counts Hg k y end; simpl b2n in *; lia.
+  - destruct (mgr st) eqn:Hm; try discriminate.
+    destruct (nth_error (gs st) g) as [[c scr]|] eqn:Hg; try discriminate.
+    destruct c; try discriminate. injection Hs as <-.
+    match goal with |- context[set_g _ _ ?y] => counts Hg k y end. cnorm. simpl b2n in *; lia.
+  - destruct (mgr st) eqn:Hm; try discriminate;
+      destruct (get_item k0 ov st) as [st1' e] eqn:Hgi; pose proof (cH_get_item _ _ _ _ _ k Hgi) as E.
+    + destruct (Nat.eqb (locks e) 0); injection Hs as <-; cnorm; rewrite ?cH_bump; simpl; lia.
+    + destruct (Nat.ltb 0 (locks e)); [destruct (Nat.ltb 0 (pred (locks e)))|]; injection Hs as <-; cnorm;
+        rewrite ?cH_bump; simpl; lia.
+  - destruct (nth_error (gs st) g) as [[c scr]|] eqn:Hg; try discriminate.
+    destruct c; try discriminate.
+    destruct (get_item k0 ov st) as [st1' e] eqn:Hgi. pose proof (cH_get_item _ _ _ _ _ k Hgi) as E.
+    destruct (get_item_measure _ _ _ _ _ Hgi) as (G & _). rewrite <- G in Hg.
+    injection Hs as <-.
+    match goal with |- context[set_g _ _ ?y] => counts Hg k y end. simpl b2n in *; lia.
+  - destruct (mgr st) eqn:Hm; try discriminate;
+      destruct (nth_error (gs st) g) as [[c0 scr]|] eqn:Hg; try discriminate;
+      destruct c0; try discriminate;
+      match type of Hs with context[Nat.eqb ?a ?b] => destruct (Nat.eqb a b); try discriminate end;
+      injection Hs as <-; cnorm; rewrite ?cH_bump;
+      match goal with |- context[set_g _ _ ?y] => counts Hg k y end;
+      destruct (Nat.eqb k0 k); simpl b2n in *; lia.
+  - destruct (nth_error (gs st) g) as [[c scr]|] eqn:Hg; try discriminate.
+    destruct c; try discriminate. injection Hs as <-.
+    match goal with |- context[set_g _ _ ?y] => counts Hg k y end. simpl b2n in *; lia.
+  - destruct (mgr st) eqn:Hm; try discriminate.
+    destruct (nth_error (gs st) g) as [[c scr]|] eqn:Hg; try discriminate.
+    destruct c; try discriminate; injection Hs as <-; cnorm;
+      match goal with |- context[set_g _ _ ?y] => counts Hg k y end;
+      try destruct (Nat.eqb k0 k); simpl b2n in *; lia.
+  - destruct (mgr st) eqn:Hm; try discriminate. destruct (pend st); try discriminate.
+    injection Hs as <-. simpl. unfold cH; simpl. lia.
+  - destruct (mgr st) eqn:Hm; try discriminate. injection Hs as <-. simpl. unfold cH; simpl. lia.
+Qed.
+
+Lemma holders_trace st tr st' k :
+  atrace st tr st' -> cH st' k + cnt (is_release k) tr = cH st k + cnt (is_grant k) tr.
+Proof.
+  induction 1; [unfold cnt; simpl; lia|].
+  pose proof (holders_step _ _ _ k H) as E.
+  unfold cnt in *. simpl filter.
+  destruct (is_release k (st, l)), (is_grant k (st, l)); simpl length; simpl b2n in E; lia.
+Qed.
+
+Lemma atrace_inv st tr st' : atrace st tr st' -> Inv st -> Inv st'.
+Proof. induction 1; intro HI; [assumption|]. apply IHatrace. eapply inv_step; eauto. Qed.
+
+(* in any stretch of an admissible run from a reachable state the Lock(k)
+   calls that return exceed the Unlock(k) calls taken by at most one; in
+   particular between two consecutive releases of k at most one Lock(k)
+   returns *)
+Theorem one_per_release st tr st' k :
+  Inv st -> atrace st tr st' ->
+  cnt (is_grant k) tr <= cnt (is_release k) tr + 1 /\
+  (cnt (is_release k) tr = 0 -> cnt (is_grant k) tr <= 1).
+Proof.
+  intros HI T. pose proof (holders_trace _ _ _ k T) as E.
+  pose proof (inv_holders st' k (atrace_inv _ _ _ T HI)). lia.
+Qed.
